@@ -161,8 +161,57 @@ def case_line(files, main="/main.sy", flags="nostd,render"):
     return "%s\t%s\t%s" % (flags, main, "\t".join("%s=%s" % (p, vlib.hexs(s)) for p, s in files.items()))
 
 
+NONASCII = ["ä", "ö", "å", "é", "ü", "ß", "°", "€", "山", "田", "太", "郎", "😀", "🎮", "٣", "ñ", "Ω", "\u00a0", "\u200b", "\u0301"]
+
+
+def decorate(r, src):
+    """make the text AROUND errors hard to render: very long lines, multi-byte characters at every offset (comments,
+    string literals, trailing comments on code lines), tabs, CR LF, no final newline -- every error of the compile
+    is rendered by the harness, so the slicing / underlining code of the diagnostics runs on these lines"""
+    lines = src.split("\n")
+
+    def junk(lo, hi):
+        n = r.randint(lo, hi)
+        return "".join(r.choice(NONASCII) if r.random() < 0.45 else r.choice("abcdefghij klmnop,.;:") for _ in range(n))
+
+    k = r.randint(1, 4)
+    for _ in range(k):
+        i = r.randrange(len(lines) + 1)
+        what = r.random()
+        if what < 0.35:
+            lines.insert(i, "// " + junk(60, 260))
+        elif what < 0.6 and i < len(lines):
+            lines[i] = lines[i] + " // " + junk(40, 240)
+        elif what < 0.8:
+            lines.insert(i, "zq%d :: \"%s\" + \"%s\"" % (r.randint(0, 99), junk(50, 200).replace('"', ""), junk(5, 80).replace('"', "")))
+        elif what < 0.9 and i < len(lines):
+            lines[i] = "\t" * r.randint(1, 30) + lines[i]
+        elif i < len(lines):
+            lines[i] = " " * r.randint(80, 200) + lines[i]
+    out = "\n".join(lines)
+    z = r.random()
+    if z < 0.1:
+        out = out.replace("\n", "\r\n")
+    elif z < 0.2:
+        out = out.rstrip("\n")
+    return out
+
+
 def stream(r, n, std_ratio=0.1):
     """n compile cases (list of (class, files, flags))"""
+    out = []
+    for c, files, flags in _stream(r, n, std_ratio):
+        if c in ("mutant", "multi-error", "multi-file") and r.random() < 0.3:
+            files = {p: (decorate(r, s) if r.random() < 0.8 else s) for p, s in files.items()}
+            c = c + "+decorated"
+            flags += ",disk"      # files really exist: rendering an error shows (slices, underlines) the source lines
+        elif r.random() < 0.25:
+            flags += ",disk"
+        out.append((c, files, flags))
+    return out
+
+
+def _stream(r, n, std_ratio=0.1):
     out = []
     base = base_programs()
     for _ in range(n):
